@@ -52,8 +52,8 @@ def h_sync(nrows, shape, join, method):
         scalar = c.int('scalar', -9, 9); text = 'keep-me'
         if shape == 'list': coll = [ss[0][0], scalar, ss[1][0], text, None]
         elif shape == 'list3': coll = [ss[0][0], ss[1][0], ss[2][0]]
-        elif shape == 'dict': coll = dict(a = ss[0][0], n = scalar, b = ss[1][0], t = text)
-        else: coll = dict(a = ss[0][0], inner = [ss[1][0], text, ss[2][0]], n = None)
+        elif shape == 'dict': coll = dict(z = ss[0][0], n = scalar, b = ss[1][0], t = text)          # keys not in sorted order: 'first' / 'last' mean insertion order
+        else: coll = dict(z = ss[0][0], inner = [ss[1][0], text, ss[2][0]], n = None)
         offs = want_offsets([s[3] for s in ss], join)
         c.cover('overlap', len(want_offsets([s[3] for s in ss], 'ij')) > 0) if all(nrows[:k]) else None
         r = Pm.df_sync(coll, join = join, method = method)
@@ -62,9 +62,9 @@ def h_sync(nrows, shape, join, method):
             outs = [r[0], r[2]] if shape == 'list' else [r[0], r[1], r[2]]
             if shape == 'list': c.check('non-timeseries-pass-through-unchanged', r[1] is scalar and r[3] is text and r[4] is None)
         elif shape == 'dict':
-            outs = [r['a'], r['b']]; c.check('non-timeseries-pass-through-unchanged', r['n'] is scalar and r['t'] is text)
+            outs = [r['z'], r['b']]; c.check('non-timeseries-pass-through-unchanged', r['n'] is scalar and r['t'] is text)
         else:
-            outs = [r['a'], r['inner'][0], r['inner'][2]]
+            outs = [r['z'], r['inner'][0], r['inner'][2]]
             c.check('non-timeseries-pass-through-unchanged', r['inner'][1] is text and r['n'] is None and isinstance(r['inner'], list) and len(r['inner']) == 3)
         for i, o in enumerate(outs): check_series(c, o, base, offs, ss[i], method, 'series')
         for s in ss: c.check('inputs-unchanged', len(rows(s[0])) == len(s[3]) and all(feq(p[1], v) for p, v in zip(rows(s[0]), s[2])))
